@@ -102,6 +102,13 @@ pub fn run(thorough: bool) -> Report {
             seeds.push((i << 40) + ((i.wrapping_mul(2654435761)) % LCG_M));
         }
     }
+    // seeds around the points where multiplier * seed (+ increment) crosses 2^64
+    for q in [u64::MAX / 1664525, (u64::MAX - 1013904223) / 1664525, u64::MAX / 1664525 / 2] {
+        for d in 0..=1500u64 {
+            seeds.push(q.saturating_sub(d));
+            seeds.push(q.saturating_add(d));
+        }
+    }
     seeds.sort();
     seeds.dedup();
     let nseeds = seeds.len() as u64;
@@ -174,6 +181,47 @@ pub fn run(thorough: bool) -> Report {
                     detail: format!("seed {}: {}", seed, p),
                     case: case_history(&[Ev::Randomize(seed), Ev::Line("PRINT RND(RND(1))".into()), Ev::Line("10 PRINT RND(1);\" \";RND(0)".into()), Ev::LineToIdle("RUN".into()), Ev::LineToIdle("RUN".into())], false, false),
                 });
+            }
+        }
+    }
+    // (6) a line retyped with another function name at the same place: the call reaches the
+    // function the line names now
+    {
+        let cases: [(&str, &str, bool); 4] = [("10 PRINT INT(7.5)", "10 PRINT RND(1)", true), ("10 PRINT RND(1)", "10 PRINT ABS(0-3)", false), ("10 PRINT ABS(2)", "10 PRINT RND(1)", true), ("10 X = RND(1)", "10 X = INT(2.5): PRINT X", false)];
+        for (first, second, second_is_rnd) in cases {
+            for via in ["GOTO 10", "RUN", "GOSUB 10"] {
+                let mut s = Sess::new();
+                let _ = s.apply(&Ev::Randomize(12345));
+                let mut hist = vec![Ev::Randomize(12345)];
+                for l in [first, "RUN", second] {
+                    let e = if l == "RUN" { Ev::LineToIdle(l.into()) } else { Ev::Line(l.into()) };
+                    let _ = s.apply(&e);
+                    hist.push(e);
+                }
+                let mut m = 12345u64 % LCG_M;
+                if first.contains("RND") {
+                    m = lcg_next(m);
+                }
+                s.recs.clear();
+                let e = Ev::LineToIdle(via.into());
+                let _ = s.apply(&e);
+                hist.push(e);
+                let want = if second_is_rnd {
+                    m = lcg_next(m);
+                    format!("{}\n", lcg_value(m))
+                } else if second.contains("ABS") {
+                    "3\n".to_string()
+                } else {
+                    "2\n".to_string()
+                };
+                let after = s.it.verif_snapshot().rng_state;
+                if s.printed() != want || after != m {
+                    rep.add(Violation {
+                        signature: format!("retyped line {} -> {} via {}", first, second, via),
+                        detail: format!("{} printed {:?} (expected {:?}); generator state {} (expected {})", via, s.printed(), want, after, m),
+                        case: case_history(&hist, false, false),
+                    });
+                }
             }
         }
     }
@@ -295,6 +343,15 @@ pub fn run(thorough: bool) -> Report {
                                 // whatever "the previous value" is before any positive call, every
                                 // value of the sequence lies in [0, 1)
                                 Some(format!("RND(0) returned {} which is outside [0,1)", s.printed().trim()))
+                            } else if !stepped && {
+                                // right after (re-)seeding: what a fresh interpreter given the same seed answers
+                                let mut f = Sess::new();
+                                let sd = hist.iter().rev().find_map(|e| if let Ev::Randomize(x) = e { Some(*x) } else { None }).unwrap_or(seed);
+                                let _ = f.apply(&Ev::Randomize(sd));
+                                let _ = f.apply(&Ev::Line(line.clone()));
+                                f.printed() != s.printed()
+                            } {
+                                Some(format!("RND(0) right after seeding printed {:?}, a fresh interpreter given the same seed prints something else", s.printed()))
                             } else if stepped
                                 && s.printed() != format!("{}\n", lcg_value(model))
                             {
